@@ -900,8 +900,11 @@ def check_c15(c, result):
                 break
     # output modes through the real CLI: text / json / output-file / verbose describe the same locations
     n_cli = 6 if c.tier == 'quick' else 40
-    for (qid, q), (_, t) in list(zip(qs, tq))[:n_cli]:
-        locs = {}
+    fixed = [(('fx0', dict(frm=[('method_declaration', 'm')])), ('fx0', 'FROM method_declaration AS m SELECT m.getName(), m.getVisibility()')),
+             (('fx1', dict(frm=[('class_declaration', 'c'), ('method_declaration', 'm')])), ('fx1', 'FROM class_declaration AS c, method_declaration AS m WHERE c.getName() != m.getName() SELECT c.getName(), m.getName()')),
+             (('fx2', dict(frm=[('variable_declaration', 'v')])), ('fx2', 'FROM variable_declaration AS v WHERE v.getName() != "zz" SELECT v.getName(), v.getVariableValue(), v'))]
+    for (qid, q), (_, t) in fixed + list(zip(qs, tq))[:n_cli]:
+        locs, pairing = {}, {}
         for mode in ('json', 'text', 'json+file', 'text+file', 'json+verbose', 'text+verbose'):
             args = [B + '/pathfinder', 'query', '--disable-metrics', '--project', c.proj, '--query', t]
             if 'json' in mode:
@@ -942,13 +945,28 @@ def check_c15(c, result):
                     result.violations.append(payload_replay('C15', 'JSON document (mode %s) is not well formed' % mode, [t], str(e), c.files))
                     break
                 locs[mode] = Counter((r['file'], r['line']) for r in d.get('result_set') or [])
+                rs_, rows_, k_ = d.get('result_set') or [], d.get('output') or [], len(q['frm'])
+                if len(rs_) == k_ * len(rows_):
+                    # which row stands next to which combination
+                    pairing[mode] = Counter((tuple((e['file'], e['line'], e['code']) for e in rs_[k_ * i_:k_ * i_ + k_]), re.sub(r'0x[0-9a-f]+', '0xPTR', json.dumps(r_))) for i_, r_ in enumerate(rows_))
             else:
                 plain = re.sub(r'\x1b\[[0-9;]*m', '', text)
                 locs[mode] = Counter((m.group(1), int(m.group(2))) for m in re.finditer(r'File: (.*?), Line: (\d+) ', plain))
+                pairing[mode] = Counter((m.group(1), int(m.group(2)), re.sub(r'0x[0-9a-f]+', '0xPTR', m.group(3))) for m in re.finditer(r'File: (.*?), Line: (\d+) \n\tResult: ([^\n]*)\n', plain))
         vals = [v for v in locs.values() if v is not None]
         c.stats['c15_cli_mode_groups'] += 1
         if vals and any(v != vals[0] for v in vals):
             result.violations.append(payload_replay('C15', 'output modes describe different sets of locations', [t], {m: sum(v.values()) if v is not None else None for m, v in locs.items()}, c.files))
+        # ... and the same row next to the same location, whatever the flags (stdout / file / verbose)
+        for fam_ in ('json', 'text'):
+            ms = [m for m in pairing if m.startswith(fam_)]
+            c.stats['c15_cli_pairings_compared'] += max(0, len(ms) - 1)
+            diff = next((m for m in ms[1:] if pairing[m] != pairing[ms[0]]), None)
+            if diff:
+                only = list((pairing[diff] - pairing[ms[0]]).items())[:1]
+                result.violations.append(payload_replay('C15', 'the row shown next to a location depends on the output flags (%s vs %s)' % (ms[0], diff), [t],
+                                                        'only with %s: %s' % (diff, str(only)[:400]), c.files))
+                break
     c.samples += [t for _, t in tq[:2]]
 
 
